@@ -247,6 +247,17 @@ def regMargin (noPos : Ext Float) (v : List Float) : Float :=
 def stMargin (noPos : Ext Float) (l : List (InfoSt Float)) : Float :=
   l.foldl (fun a x => let m := regMargin noPos x.cumRegret; if m < a then m else a) fInf
 
+/-- an accumulator entry that received non-zero additions and ended at exactly `0.0` is a
+cancellation: in another summation order it is `±ulp`, and regret matching treats `0` and
+`+ulp` differently -/
+def cancelMargin (s : SolveSt Float) (es : List (Eff Float)) : Float :=
+  es.foldl (fun m e =>
+    if e.slot == Slot.regret && e.delta != 0.0 then
+      match (s.get e.one)[e.info]? with
+      | some x => if x.cumRegret.getD e.act 1.0 == 0.0 then 0.0 else m
+      | none => m
+    else m) fInf
+
 def thrMargin (r1 r2 : Float) : Option (Ext Float) → Float
   | some (.fin t) =>
     let b := if r1 < r2 then r2 else r1
@@ -262,6 +273,7 @@ partial def marginsVanilla (g : Game Float) (sampled : Bool) (p : RegretParams F
   let c : VCtx Float := ⟨g.chance, sampled, s.strat, draw, it - 1⟩
   let (_, es, _) := vrec c g.root 1 1 1 {}
   let s := s.applyEffs es
+  let m := fmin2 m (cancelMargin s es)
   let m := fmin2 m (fmin2 (stMargin p.noPositive s.one) (stMargin p.noPositive s.two))
   let (one, r1) := advanceAll p it it s.one 0
   let (two, r2) := advanceAll p it it s.two 0
@@ -276,6 +288,7 @@ partial def marginsExternal (g : Game Float) (p : RegretParams Float)
       ⟨g.chance, first, s.strat, draw, 2 * (it - 1) + (if first then 0 else 1), if first then it - 1 else it⟩
     let (_, es, _) := erec c g.root {}
     let s := s.applyEffs es
+    let m := fmin2 m (cancelMargin s es)
     let m := fmin2 m (stMargin p.noPositive (s.get first))
     let (xs, r) := advanceAll p it (if first then it - 1 else it) (s.get first) 0
     (s.set first xs, r, m)
